@@ -3,12 +3,17 @@ C05 for MDCPDP.  The statement "every feasible solution in canonical form (vehic
 every depot's vehicle started) is admitted by the mask" is false of the code: because `current_depot`
 never leaves depot 0, (a) a vehicle's return to its OWN depot is never offered — only node 0 is —
 (`run_of_feasible_counterexample`), and (b) a vehicle whose depot has a larger capacity than depot 0
-cannot use it (`run_of_feasible_capacity_counterexample`).  No completeness theorem is claimed; the
-unit checks completeness by exhaustive enumeration on tiny instances (single depot and two depots with
-equal capacities, where no solution is hidden).
+cannot use it (`run_of_feasible_capacity_counterexample`).
+
+What the mask DOES admit is characterised exactly (`run_iff_admitsAll`, `finished_iff`): a visit list is a
+mask-confined run iff every visit is offered by `envAdmits`, a predicate on the state of the Spec's own
+simulation (`mask_eq_admits`: in every reachable state the mask IS `envAdmits`).  Compared with what the
+Spec accepts (with depot 0's capacity), `envAdmits` prunes: the return to a depot other than node 0,
+the return when no depot is left, and waiting at the depot before everything is done.
 -/
 import Rl4co.Proofs.Mdcpdp
 import Rl4co.Props.C01.Mdcpdp
+import Rl4co.Props.C03.MdcpdpSim
 
 namespace Rl4co.Mdcpdp
 open Rl4co.Spec.Mdcpdp
@@ -50,5 +55,240 @@ theorem run_of_feasible_capacity_counterexample : ¬ run_of_feasible_statement :
     (by intro d _; simp only [cexCap2]; split <;> omega) (by unfold Feasible; decide)
     ⟨rfl, by intro d hd; have : d < 2 := hd; (rcases d with _ | _ | d) <;> simp <;> omega⟩
   exact not_run_of_not_admitted (by decide) this
+
+/-! ### the class of solutions the mask admits, in terms of the Spec's own simulation state -/
+
+theorem anyIn_K_iff (i : Inst) {b : Bool} {s : State} {σ : Sim} (hr : Rel i b s σ) :
+    anyIn i.K s.avail = depLeft (problemOf i) σ := by
+  cases h : depLeft (problemOf i) σ with
+  | true =>
+    simp only [depLeft, List.any_eq_true, List.mem_range, decide_eq_true_eq] at h
+    obtain ⟨d, hd, hno⟩ := h
+    have hd' : d < i.K := hd
+    apply anyIn_eq_true.mpr
+    refine ⟨d, hd', ?_⟩
+    cases hav : s.avail d with
+    | true => rfl
+    | false => exact absurd ((hr.opened d hd').mpr hav) hno
+  | false =>
+    apply anyIn_eq_false.mpr
+    intro d hd
+    cases hav : s.avail d with
+    | false => rfl
+    | true =>
+      have : depLeft (problemOf i) σ = true := by
+        simp only [depLeft, List.any_eq_true, List.mem_range, decide_eq_true_eq]
+        refine ⟨d, hd, fun hmem => ?_⟩
+        have := (hr.opened d hd).mp hmem
+        rw [hav] at this; cases this
+      rw [h] at this; cases this
+
+theorem done_iff_allDone (i : Inst) (hwf : WF i) {b : Bool} {s : State} {σ : Sim} (hi : Inv i s)
+    (hr : Rel i b s σ) : s.done = allDone (problemOf i) σ := by
+  have hev := hwf.even
+  rw [hi.doneEq]
+  cases h : allDone (problemOf i) σ with
+  | true =>
+    simp only [allDone, Bool.and_eq_true, List.all_eq_true, List.mem_range, decide_eq_true_eq] at h
+    have : anyIn i.N s.avail = false := by
+      apply anyIn_eq_false.mpr
+      intro j hj
+      by_cases hjK : j < i.K
+      · exact (hr.opened j hjK).mp (h.1 j hjK)
+      · have := h.2 (j - i.K) (by show j - i.K < 2 * i.h; omega)
+        have e : (problemOf i).K + (j - i.K) = j := by show i.K + (j - i.K) = j; omega
+        rw [e] at this
+        exact ((hr.served j).mp this).2.2
+    simp [this]
+  | false =>
+    have : anyIn i.N s.avail = true := by
+      cases hany : anyIn i.N s.avail with
+      | true => rfl
+      | false =>
+        exfalso
+        have hall := anyIn_eq_false.mp hany
+        have : allDone (problemOf i) σ = true := by
+          simp only [allDone, Bool.and_eq_true, List.all_eq_true, List.mem_range, decide_eq_true_eq]
+          refine ⟨fun d hd => (hr.opened d hd).mpr (hall d (by have : d < i.K := hd; omega)), ?_⟩
+          intro k hk
+          have hk' : k < 2 * i.h := hk
+          exact (hr.served (i.K + k)).mpr ⟨by omega, by omega, hall (i.K + k) (by omega)⟩
+        rw [h] at this; cases this
+    simp [this]
+
+/-- **The mask is `envAdmits`** in every state after the first step. -/
+theorem mask_eq_admits (i : Inst) (hwf : WF i) {b : Bool} {s : State} {σ : Sim} (hi : Inv i s)
+    (hr : Rel i b s σ) (a : Nat) (ha : a < i.N) : s.mask a = envAdmits (problemOf i) σ a := by
+  have hev := hwf.even
+  have hk := hwf.kpos
+  have hpd : i.pd = i.h + i.K := rfl
+  have h0open : 0 ∈ σ.opened := (hr.opened 0 (by omega)).mpr hr.zero
+  have hopne : σ.opened.isEmpty = false := by
+    cases ho : σ.opened with
+    | nil => rw [ho] at h0open; cases h0open
+    | cons _ _ => rfl
+  have hcarry : decide (s.carry > 0) = !σ.onboard.isEmpty := by
+    have := hr.carry
+    cases ho : σ.onboard with
+    | nil => rw [ho] at this; simp at this; simp [← this]
+    | cons x xs => rw [ho] at this; simp at this; simp; omega
+  have hvb : σ.veh.isSome = !b ∧ σ.veh.isNone = b := by
+    cases b with
+    | true => rw [hr.veh.1 rfl]; exact ⟨rfl, rfl⟩
+    | false => obtain ⟨d, hd⟩ := hr.veh.2 rfl; rw [hd]; exact ⟨rfl, rfl⟩
+  have hdone := done_iff_allDone i hwf hi hr
+  have hany := anyIn_K_iff i hr
+  rw [hr.mask]
+  by_cases haK : a < i.K
+  · have haK' : a < (problemOf i).K := haK
+    by_cases ha0 : a = 0
+    · subst ha0
+      simp only [maskOf, capFlagOf_eq, carryFlagOf_eq, lastDepotOf_eq, haK, if_true, envAdmits, haK',
+        hcarry, hany, hdone, hvb.1, hvb.2, hopne, decide_true, Bool.true_and]
+      have : decide (0 ∉ σ.opened) = false := by simp [h0open]
+      simp [this]
+      cases b <;> cases σ.onboard.isEmpty <;> cases depLeft (problemOf i) σ <;> cases allDone (problemOf i) σ <;> rfl
+    · have hav : s.avail a = decide (a ∉ σ.opened) := by
+        cases h : s.avail a with
+        | false => simp [(hr.opened a haK).mpr h]
+        | true =>
+          have : a ∉ σ.opened := fun hm => by have := (hr.opened a haK).mp hm; rw [h] at this; cases this
+          simp [this]
+      have htd := hi.tdLow a (by omega)
+      have hdl : s.avail a = true → depLeft (problemOf i) σ = true := by
+        intro h; rw [← hany]; exact anyIn_eq_true.mpr ⟨a, haK, h⟩
+      simp only [maskOf, capFlagOf_eq, carryFlagOf_eq, lastDepotOf_eq, haK, if_true, ha0, if_false, envAdmits, haK',
+        hcarry, hany, htd, hvb.2, hopne, hav, decide_false, Bool.false_and, Bool.or_false, Bool.not_false,
+        Bool.true_or, Bool.and_true, Bool.not_not]
+      rw [hav] at hdl
+      cases hd : decide (a ∉ σ.opened) <;> cases b <;> cases σ.onboard.isEmpty <;> simp_all
+  · have haK' : ¬ a < (problemOf i).K := haK
+    have hav : s.avail a = decide (a ∉ σ.served) := by
+      cases h : s.avail a with
+      | false => simp [(hr.served a).mpr ⟨by omega, ha, h⟩]
+      | true =>
+        have : a ∉ σ.served := fun hm => by have := ((hr.served a).mp hm).2.2; rw [h] at this; cases this
+        simp [this]
+    by_cases hp : a < i.pd
+    · have hp' : a < (problemOf i).K + (problemOf i).h := by show a < i.K + i.h; omega
+      have htd := hi.tdLow a (by omega)
+      have hcap : (!decide (s.carry ≥ i.cap 0)) = decide ((σ.onboard.length : Int) + 1 ≤ (problemOf i).cap 0) := by
+        have := hr.carry
+        show _ = decide ((σ.onboard.length : Int) + 1 ≤ i.cap 0)
+        by_cases hc : s.carry ≥ i.cap 0
+        · have : ¬ ((σ.onboard.length : Int) + 1 ≤ i.cap 0) := by omega
+          simp [hc, this]
+        · have : (σ.onboard.length : Int) + 1 ≤ i.cap 0 := by omega
+          simp [hc, this]
+      simp only [maskOf, capFlagOf_eq, carryFlagOf_eq, lastDepotOf_eq, haK, if_false, hp, if_true, envAdmits, haK',
+        hp', hav, htd, hcap, hvb.1, Bool.and_true]
+      cases decide (a ∉ σ.served) <;> cases b <;> cases decide ((σ.onboard.length : Int) + 1 ≤ (problemOf i).cap 0) <;> rfl
+    · have hp' : ¬ a < (problemOf i).K + (problemOf i).h := by show ¬ a < i.K + i.h; omega
+      have htd : s.avail a = true → s.toDeliver a = decide ((a - (problemOf i).h) ∈ σ.onboard) := by
+        intro hava
+        have := hi.tdDel (a - i.h) (by omega) (by omega)
+        have e : a - i.h + i.h = a := by omega
+        rw [e] at this
+        rw [this]
+        show _ = decide ((a - i.h) ∈ σ.onboard)
+        cases hpk : s.avail (a - i.h) with
+        | true =>
+          have : (a - i.h) ∉ σ.onboard := fun hm => by have := ((hr.onboard _).mp hm).2.2.1; rw [hpk] at this; cases this
+          simp [this]
+        | false =>
+          have : (a - i.h) ∈ σ.onboard := (hr.onboard _).mpr ⟨by omega, by omega, hpk, by rw [e]; exact hava⟩
+          simp [this]
+      simp only [maskOf, capFlagOf_eq, carryFlagOf_eq, lastDepotOf_eq, haK, if_false, hp, envAdmits, haK', hp', hvb.1]
+      cases hava : s.avail a with
+      | false => rw [hav] at hava; simp [hava]
+      | true => rw [htd hava]; rw [hav] at hava; simp [hava]; cases b <;> simp
+
+theorem reset_mask_eq_admits (i : Inst) (hwf : WF i) (a : Nat) :
+    (reset i).mask a = envAdmits (problemOf i) {} a := by
+  have hk := hwf.kpos
+  have hnd : allDone (problemOf i) {} = false := by
+    simp only [allDone, Bool.and_eq_false_iff]
+    left
+    simp only [List.all_eq_false, List.mem_range]
+    exact ⟨0, hk, by simp⟩
+  by_cases haK : a < i.K
+  · have haK' : a < (problemOf i).K := haK
+    simp [reset, envAdmits, haK', hnd]
+  · have haK' : ¬ a < (problemOf i).K := haK
+    have : a ≠ 0 := by omega
+    simp [reset, envAdmits, haK', this]
+
+/-- an environment state together with the simulation state of its history -/
+def Tied (i : Inst) (s : State) (σ : Sim) : Prop :=
+  (s = reset i ∧ σ = {}) ∨ (Inv i s ∧ ∃ b, Rel i b s σ)
+
+theorem tied_mask (i : Inst) (hwf : WF i) {s : State} {σ : Sim} (ht : Tied i s σ) (a : Nat) (ha : a < i.N) :
+    s.mask a = envAdmits (problemOf i) σ a := by
+  rcases ht with ⟨h1, h2⟩ | ⟨hi, b, hr⟩
+  · subst h1 h2; exact reset_mask_eq_admits i hwf a
+  · exact mask_eq_admits i hwf hi hr a ha
+
+theorem tied_step (i : Inst) (hwf : WF i) {s : State} {σ : Sim} (ht : Tied i s σ) (a : Nat) (ha : a < i.N)
+    (hm : s.mask a = true) : Tied i (step i s a) (simStep (problemOf i) v0 σ a) := by
+  rcases ht with ⟨h1, h2⟩ | ⟨hi, b, hr⟩
+  · subst h1 h2
+    have ha0 : a = 0 := by simpa [reset] using hm
+    subst ha0
+    exact Or.inr ⟨inv_step hwf (inv_reset i hwf) ha hm, false, rel_first i hwf⟩
+  · exact Or.inr ⟨inv_step hwf hi ha hm, _, rel_step i hwf hi hr ha hm⟩
+
+theorem run_iff_admitsAll_from (i : Inst) (hwf : WF i) (as : List Nat) : ∀ {s : State} {σ : Sim}, Tied i s σ →
+    ((∃ s', Run env i s as s') ↔ admitsAll (problemOf i) σ as = true) := by
+  have hN := pN i hwf
+  induction as with
+  | nil => intro s σ _; exact ⟨fun _ => rfl, fun _ => ⟨s, Run.nil s⟩⟩
+  | cons a as ih =>
+    intro s σ ht
+    constructor
+    · rintro ⟨s', hrun⟩
+      cases hrun with
+      | cons ha hm hrest =>
+        have ha' : a < i.N := ha
+        have hm' : s.mask a = true := hm
+        have := (ih (tied_step i hwf ht a ha' hm')).mp ⟨s', hrest⟩
+        simp only [admitsAll, Bool.and_eq_true, decide_eq_true_eq, hN]
+        exact ⟨⟨ha', by rw [← tied_mask i hwf ht a ha']; exact hm'⟩, this⟩
+    · intro h
+      simp only [admitsAll, Bool.and_eq_true, decide_eq_true_eq, hN] at h
+      obtain ⟨⟨ha, hadm⟩, hrest⟩ := h
+      have hm : s.mask a = true := by rw [tied_mask i hwf ht a ha]; exact hadm
+      obtain ⟨s', hrun⟩ := (ih (tied_step i hwf ht a ha hm)).mpr hrest
+      exact ⟨s', Run.cons ha hm hrun⟩
+
+/-- **C05 (MDCPDP): the class of visit lists the mask admits, as an iff** (solo row, well-formed
+instance, start_mode "order"). -/
+theorem run_iff_admitsAll (i : Inst) (hwf : WF i) (as : List Nat) :
+    (∃ s, Run env i (env.reset i) as s) ↔ admitsAll (problemOf i) {} as = true :=
+  run_iff_admitsAll_from i hwf as (Or.inl ⟨rfl, rfl⟩)
+
+/-- … and a mask-confined run is finished iff every depot's vehicle was started and every customer served. -/
+theorem finished_iff (i : Inst) (hwf : WF i) (as : List Nat) :
+    (∃ s, Run env i (env.reset i) as s ∧ env.done i s = true) ↔
+      (admitsAll (problemOf i) {} as = true ∧ as ≠ [] ∧ allDone (problemOf i) (simOf i v0 as) = true) := by
+  constructor
+  · rintro ⟨s, hrun, hd⟩
+    have hne : as ≠ [] := by
+      intro he; subst he
+      cases hrun; simp [env, reset] at hd
+    obtain ⟨hi, hrel⟩ := sim_refines i hwf hrun
+    obtain ⟨b, hr⟩ := hrel hne
+    refine ⟨(run_iff_admitsAll i hwf as).mp ⟨s, hrun⟩, hne, ?_⟩
+    rw [← done_iff_allDone i hwf hi hr]; exact hd
+  · rintro ⟨hadm, hne, hall⟩
+    obtain ⟨s, hrun⟩ := (run_iff_admitsAll i hwf as).mpr hadm
+    obtain ⟨hi, hrel⟩ := sim_refines i hwf hrun
+    obtain ⟨b, hr⟩ := hrel hne
+    exact ⟨s, hrun, by show s.done = true; rw [done_iff_allDone i hwf hi hr]; exact hall⟩
+
+/-- Non-vacuity: the two-tour episode of `cexMM` is admitted and finished; the feasible solution in which
+the vehicle of depot 1 returns to depot 1 (`cexHome`) is not admitted. -/
+example : admitsAll (problemOf cexMM) {} [0, 2, 4, 0, 1, 3, 5] = true ∧
+    allDone (problemOf cexMM) (simOf cexMM v0 [0, 2, 4, 0, 1, 3, 5]) = true := by decide
+example : admitsAll (problemOf cexHome) {} [0, 0, 1, 3, 4, 1, 2] = false := by decide
 
 end Rl4co.Mdcpdp
